@@ -605,6 +605,18 @@ func cmdC16(prop, tier string, seed int64, out, statsOut, replay string) {
 			}
 		}
 	}
+	// a document of more than a mebibyte (a package listing its files one by one) whose LAST key is not defined, and the
+	// same without it: size changes nothing about strictness
+	if prop == "C16" {
+		var big strings.Builder
+		big.WriteString("name: big\narch: amd64\nversion: 1.0.0\ncontents:\n")
+		for i := 0; big.Len() < 1200*1024; i++ {
+			fmt.Fprintf(&big, "  - src: src/tree/dir%04d/file%05d.dat\n    dst: /opt/big/dir%04d/file%05d.dat\n", i/50, i, i/50, i)
+		}
+		emitStrictCase(w, "big-document", big.String(), st, "a document of 1.2 MiB")
+		emitStrictCase(w, "big-document-unknown-last-key", big.String()+"not_a_key_of_nfpm: true\n", st, "an undefined key at the end of a document of 1.2 MiB")
+		emitStrictCase(w, "big-document-unknown-key-in-last-entry", big.String()+"  - src: a\n    dst: /a\n    not_a_key: 1\n", st, "an undefined key in the last entry of a document of 1.2 MiB")
+	}
 	// every entry type with and without the optional keys of a content entry (a dir or ghost entry may name a src)
 	if prop == "C17" {
 		dir, err := os.MkdirTemp("", "verif-c17-")
@@ -651,10 +663,21 @@ func cmdC16(prop, tier string, seed int64, out, statsOut, replay string) {
 		{"VX": "x", "VEMPTY": "", "VVER": "1.0", "NFPM_PASSPHRASE": "g", "NFPM_APK_PASSPHRASE": "a"},
 		// values that begin or end with blanks: only list items are trimmed
 		{"VX": " x ", "VY": "\ty\n", "VEMPTY": "  ", "VVER": "1.0 "},
+		// characters that mean something to a glob, a shell or a path: a value is substituted as it is
+		{"VX": "out/build[1]*?{a,b}\\x", "VY": "~", "VEMPTY": "", "VVER": "1.0"},
+		{"VX": "~/x", "VY": "~", "VEMPTY": "", "VVER": "1.0"},
 	}
 	for i, e := range envs {
 		emitExpandCase(w, fmt.Sprintf("exp-%d", i), expandDoc, e, st)
 	}
+	// a tilde is a character like any other (the process has a HOME; the caller's mapping knows nothing of it)
+	tildeDoc := "name: tilde\narch: amd64\nversion: 1.0.0\ndeb:\n  signature:\n    key_file: \"~/keys/deb.asc\"\nrpm:\n  signature:\n    key_file: \"~\"\napk:\n  signature:\n    key_file: \"~/keys/${VX}.rsa\"\ncontents:\n  - src: \"~/src/${VX}\"\n    dst: \"/~/${VX}\"\n    expand: true\n  - src: \"~/src\"\n    dst: \"/~\"\n"
+	oldHome := os.Getenv("HOME")
+	os.Setenv("HOME", "/home/of-the-harness-process")
+	for i, e := range []map[string]string{{"VX": "x"}, {"VX": "~"}, {"VX": "", "HOME": "/home/from-the-mapping"}} {
+		emitExpandCase(w, fmt.Sprintf("tilde-%d", i), tildeDoc, e, st)
+	}
+	os.Setenv("HOME", oldHome)
 	// os.Expand syntax corners in one field
 	corners := []string{"$", "$$", "${", "${}", "${VX", "$VX}", "$1", "${1}", "$-x", "a$", "$ VX", "${VX}${VY}", "$VX_Y", "${VX:-d}", "\\$VX", "$*", "${*}", "é$VXé", "$VX$", "100%",
 		" lead", "trail ", "  both  ", "line\n", "\ttabbed\t", " $VX ", "two\nlines\n"}
